@@ -29,6 +29,18 @@ data scale 1e-8, 1e-4, 1e4, 1e8 (ykinds tiny8 .. huge8; every statement is homog
 through matrix_skeleton with its default ABSOLUTE accuracy 1e-10: the order-2 tolerances carry an absolute 1e-10 per
 pair, which matters only at the scale 1e-8, and the repeated-export clause gets the small scales with order 1 only),
 functional variant with d = 4, per-dimension bounds as lists, points / values as lists.
+Gap closure (fourth mutation round):
+  C13.anova_func.model   + point sets 'grid<q>' (tensor product of q symmetric Chebyshev-type nodes per variable) with data that
+                         depend on one variable only / are even / odd in the scaled variables, and random points with data of
+                         overall scale 1e-15 .. 1e-30 (1e-100 thorough): fitted coefficients (and for 'odd' the fitted constant)
+                         that are non-zero but of magnitude <= 1e-16 - the switch inside tensors.delta - must stay at rounding
+                         level in the coefficient tensor (TRIVIAL if no coefficient lies in (0, 1e-16])
+  C13.delta.value        delta(n, i, v): zero except v at i, for v = 0, +-(5e-324 .. 1e300) incl. 0.99e-16, 1e-16, 1.01e-16, d = 1..6
+  C13.anova.order2 / .additive  + d = 6, 7 (10; thorough 11): 15, 21, 45 pair terms, i.e. at / above / a multiple of the
+                         intermediate-truncation period 15 of add_many, with r = 2, 3, 4 (binding) and r = need (values)
+  C13.anova.order2_rank_cap   the same shapes with noise in {0, 1e-10, 1e-3, 0.5} and binding r: well-formed, ranks <= r
+  C13.add_many.rank_cap  add_many(e=1e-10, r, trunc_freq in {default 15, 1, 2 (3, 4, 15, 16)}) with count - 1 below / equal to /
+                         above / a multiple of the period, binding and non-binding r, number summands: ranks <= r, dense sum
 # DOUBTFUL (not yielded): data of scale <= 1e-10, e.g. y * 1e-10 for shape [3, 4], how 'full2', r = need: all pair
 # singular values fall below the absolute 1e-10 of matrix_skeleton, the pair terms are dropped, relative error 0.16.
 """
@@ -42,7 +54,10 @@ BUDGET = (100, 800)
 BOUNDS = ('d = 2..5, observed mode sizes 1..5 (+ 9, 12) (index values with gaps, also of both signs), full grids / doubled grids / sparse random '
           'subsets with duplicates (different y), y Gaussian / integer / additive / constant+spike / Gaussian scaled by 1e-8 .. 1e8; r in 2..5, '
           'noise in {0, 1e-10, 1e-3, 0.5} and rel_noise, orders 1 and 2 (rank 2 + pairs*n_max), only_near, int / Generator seeds; functional: d = 2..4, '
-          'n = 2..6, m = 6n..10n points, lamb in {1e-7, 1e-3, 1}, boxes [-1,1], [0,2], [-3,5]')
+          'n = 2..6, m = 6n..10n points, lamb in {1e-7, 1e-3, 1}, boxes [-1,1], [0,2], [-3,5]; tensor-product point sets (4..7 nodes, '
+          'd = 2..4) with one-variable / even / odd data, data scale 1e-15..1e-30; delta values 0, +-1e-300..1e300 around 1e-16; order 2 '
+          'with d = 6, 7, 10 (15, 21, 45 pair terms) and r in {2, 3, 4, need}, noise {1e-10, 1e-3, 0.5}; add_many of 1..46 summands, '
+          'trunc_freq {15, 1, 2}, binding / non-binding rank cap')
 
 EPS = np.finfo(float).eps
 SCALED = {'tiny8': 1e-8, 'tiny4': 1e-4, 'huge4': 1e4, 'huge8': 1e8}
@@ -346,6 +361,65 @@ def anova_order2(shape, how, ykind, seed, r, aseed):
     return PASS
 
 
+@clause('C13.anova.order2_rank_cap', funcs=('anova.anova', 'anova.ANOVA.cores', 'anova.ANOVA.cores_2', 'act_many.add_many'))
+def anova_order2_rank_cap(shape, how, ykind, seed, r, noise, aseed):
+    """order = 2, any noise >= 0, any r >= 2 - in particular r BELOW the natural rank of the second-order model and a
+    number of pair terms d(d-1)/2 that reaches / is a multiple of the intermediate-truncation period 15 of add_many
+    (d = 6, 7, 10): well-formed, observed mode sizes, finite, all TT-ranks <= r."""
+    I, y, dom, P = _data(shape, how, ykind, seed)
+    Y = teneva.anova(I, y, r, 2, noise, aseed)
+    msg = gen.wf(Y, shape)
+    if msg:
+        return FAIL('not well-formed / wrong mode sizes: ' + msg)
+    if not gen.finite(Y):
+        return FAIL('non-finite cores')
+    rk = [G.shape[2] for G in Y[:-1]]
+    if not all(x <= r for x in rk):
+        return FAIL(f'TT-ranks {rk} exceed the requested rank {r} (d = {len(shape)}, {len(shape) * (len(shape) - 1) // 2} pair terms, noise {noise})')
+    return PASS
+
+
+@clause('C13.add_many.rank_cap', funcs=('act_many.add_many', 'transformation.truncate'))
+def add_many_rank_cap(shape, count, trunc_freq, r, seed, scalars=False):
+    """The summation step of the order-2 export: add_many(Y_1 .. Y_count, e=1e-10, r, trunc_freq) for every relation
+    between the number of additions count - 1 and the intermediate-truncation period (below, equal, a multiple, above;
+    trunc_freq None = default 15): well-formed, mode sizes kept, all TT-ranks <= r ("maximum rank of the result"), and
+    if r is at least the largest possible rank of the sum (nothing is cut) the dense tensor equals the dense sum
+    (relative Frobenius 1e-6: truncation with e = 1e-10).  scalars: some summands are plain numbers."""
+    g = gen.rng('C13.add_many', shape, count, seed)
+    S, T = [], np.zeros(shape)
+    for j in range(count):
+        if scalars and j % 4 == 2:
+            c = float(g.integers(-3, 4))
+            S.append(c if j % 8 == 2 else int(c))
+            T = T + c
+        else:
+            Yj = gen.tt(shape, 1 + int(g.integers(0, 2)), seed + 17 * j, 'gauss')
+            S.append(Yj)
+            T = T + gen.dense(Yj)
+    before = gen.snapshot(S)
+    kw = {} if trunc_freq is None else dict(trunc_freq=trunc_freq)
+    Z = teneva.add_many(S, 1e-10, r, **kw)
+    if gen.snapshot(S) != before:
+        return FAIL('the summands were modified')
+    msg = gen.wf(Z, shape)
+    if msg:
+        return FAIL('not well-formed / wrong mode sizes: ' + msg)
+    if not gen.finite(Z):
+        return FAIL('non-finite cores')
+    rk = [G.shape[2] for G in Z[:-1]]
+    if not all(x <= r for x in rk):
+        return FAIL(f'TT-ranks {rk} exceed r = {r} ({count} summands, trunc_freq {trunc_freq})')
+    d = len(shape)
+    full = max(min(int(np.prod(shape[:k])), int(np.prod(shape[k:]))) for k in range(1, d))
+    if r < full:
+        return TRIVIAL(f'rank cap {r} < {full}: only structure checked')
+    err, nrm = np.linalg.norm(gen.dense(Z) - T), np.linalg.norm(T)
+    if not err <= 1e-6 * nrm:
+        return FAIL(f'sum of {count} tensors (trunc_freq {trunc_freq}): rel. error {err / max(nrm, 1e-300):.3e}')
+    return PASS
+
+
 def _near(f2):
     return {k: v for k, v in f2.items() if k[1] == k[0] + 1}
 
@@ -455,22 +529,47 @@ def _own_ridge(X, y, n, a, b, lamb):
 
 
 @clause('C13.anova_func.model', funcs=('anova_func.ANOVA_func', 'anova_func.anova_func', 'func.func_get', 'tensors.delta'))
-def anova_func_model(d, n, m, a, b, lamb, seed, ykind, yscale=1.0):
+def anova_func_model(d, n, m, a, b, lamb, seed, ykind, yscale=1.0, xkind='random'):
     """ANOVA_func: coeffs == own ridge fit; func_get(X, cores(e=None)) == fitted constant + sum_k sum_{p>=1} c_k[p] T_p
     at random points of the box (with the class's own coefficients: rounding; with the own fit: conditioning-aware);
-    anova_func with the default rounding e=1e-8 agrees within 1e-6."""
+    anova_func with the default rounding e=1e-8 agrees within 1e-6.
+    xkind 'grid<q>': tensor-product point set of q Chebyshev-type nodes per variable, symmetric about the centre of the box
+    (m is ignored); with the data kinds 'first' / 'last' (depend on one variable only), 'even', 'odd' (in the scaled
+    variables) many fitted coefficients are pure rounding residue (non-zero, ~1e-17 relative to the data; for 'odd' also
+    the fitted constant): they must stay at rounding level in the coefficient tensor.  yscale <= 1e-15 puts ALL fitted
+    coefficients at / below that absolute magnitude."""
     Pc = np.polynomial.chebyshev
     g = gen.rng('C13.func', d, n, m, a, b, seed, ykind)
     a_arg, b_arg = a, b                                # as handed to teneva: number, list (per-dimension bounds)
     if isinstance(a, list):
         a, b = np.array(a, dtype=float), np.array(b, dtype=float)
-    X = g.uniform(a, b, size=(m, d))
-    X[m // 3] = X[0]                                   # a repeated point
+    if xkind == 'random':
+        X = g.uniform(a, b, size=(m, d))
+        X[m // 3] = X[0]                               # a repeated point
+    elif xkind.startswith('grid'):
+        q = int(xkind[4:])
+        pts = np.cos(np.pi * (np.arange(q) + 0.5) / q)          # strictly inside (-1, 1), symmetric
+        pts = 0.5 * (pts - pts[::-1])                           # exactly symmetric: pts[j] == -pts[q-1-j]
+        X = gen.all_indices([q] * d)
+        X = (a + b) / 2. + (b - a) / 2. * pts[X]
+        X = X[g.permutation(len(X))]
+        m = len(X)
+    else:
+        raise ValueError(xkind)
+    Xs = (2. * X - a - b) / (b - a)
     if ykind == 'gauss':
         y = g.normal(size=m)
     elif ykind == 'additive':                          # additive polynomial of degree < n: the fit is (nearly) exact
         cf = [g.normal(size=n) for _ in range(d)]
-        y = 0.3 + sum(Pc.chebval(((2. * X - a - b) / (b - a))[:, k], cf[k]) for k in range(d))
+        y = 0.3 + sum(Pc.chebval(Xs[:, k], cf[k]) for k in range(d))
+    elif ykind == 'first':
+        y = 1.5 + np.exp(0.7 * Xs[:, 0])
+    elif ykind == 'last':
+        y = 0.4 + Xs[:, -1] - Xs[:, -1] ** 3
+    elif ykind == 'even':
+        y = 0.3 + Xs[:, 0] ** 2 - 2. * Xs[:, 1] ** 2
+    elif ykind == 'odd':
+        y = Xs[:, 0] + 0.5 * Xs[:, -1] ** 3
     else:
         y = np.cos(X.sum(axis=1)) * 2. + X[:, 0]
     y = y * yscale                                     # the model is linear in the data: every statement below scales with it
@@ -516,6 +615,32 @@ def anova_func_model(d, n, m, a, b, lamb, seed, ykind, yscale=1.0):
             return FAIL('anova_func not well-formed: ' + msg)
         if not np.linalg.norm(gen.dense(B) - W) <= 1e-6 * np.linalg.norm(W):
             return FAIL(f'anova_func(e=1e-8) differs from the model: {np.linalg.norm(gen.dense(B) - W) / np.linalg.norm(W):.3e}')
+    if xkind != 'random' or yscale <= 1e-15:
+        allc = np.concatenate([[cfs[0]]] + [np.asarray(c, dtype=float) for c in cfs[1:]])
+        if not np.any((allc != 0) & (np.abs(allc) <= 1e-16)):
+            return TRIVIAL('no non-zero fitted coefficient of magnitude <= 1e-16')
+    return PASS
+
+
+@clause('C13.delta.value', funcs=('tensors.delta',))
+def delta_value(shape, pos, v):
+    """The building block of ANOVA_func.cores: delta(n, i, v) is a well-formed tensor of shape n that is exactly zero
+    everywhere except at the multi-index i, where it has the value v (relative rounding 64 eps d) - for every finite v:
+    exact zero, both signs, magnitudes far below, just below / at / just above the internal switch 1e-16, huge."""
+    d = len(shape)
+    i = [int(p) % int(k) for p, k in zip(pos, shape)]
+    for idx in (i, np.array(i)):
+        Y = teneva.delta(shape, idx, v)
+        msg = gen.wf(Y, shape)
+        if msg:
+            return FAIL('not well-formed: ' + msg)
+        D = gen.dense(Y)
+        got = float(D[tuple(i)])
+        if not abs(got - v) <= 64. * EPS * d * abs(v):
+            return FAIL(f'delta({shape}, {i}, {v!r}): value {got!r} at the multi-index (rel. dev {abs(got - v) / max(abs(v), 1e-300):.3e})')
+        D[tuple(i)] = 0.
+        if np.any(D != 0.) or not np.all(np.isfinite(D)):
+            return FAIL(f'delta({shape}, {i}, {v!r}): non-zero / non-finite entries away from the multi-index')
     return PASS
 
 
@@ -570,6 +695,62 @@ def cases(tier, seed):
                 for yk in ('additive', 'smooth'):
                     yield 'C13.anova_func.model', dict(d=d, n=n, m=(6 + 2 * d) * n, a=-1., b=1., lamb=1e-7, seed=n + d, ykind=yk,
                                                        yscale=yscale)
+    # ---- gap closure: fitted coefficients at rounding level / below the switch 1e-16 inside tensors.delta ----------
+    # tensor-product point sets with data that do not depend on a variable / are even / odd in it; tiny overall data scale
+    j = 0
+    for (d, n, q) in ((2, 3, 4), (3, 4, 5), (3, 6, 7), (4, 3, 4), (2, 5, 6)) + (((3, 2, 3), (4, 4, 5), (2, 6, 9)) if big else ()):
+        for yk in ('first', 'last', 'even', 'odd'):
+            for (a, b) in (((-1., 1.), (0., 2.), (-3., 5.)) if big else ((-1., 1.), (0., 2.), (-3., 5.))[j % 3:j % 3 + 1]):
+                j += 1
+                for lamb in ((1e-7, 1e-3, 1.) if big else ((1e-7, 1e-3, 1.)[j % 3],)):
+                    yield 'C13.anova_func.model', dict(d=d, n=n, m=q ** d, a=a, b=b, lamb=lamb, seed=n + d + j, ykind=yk,
+                                                       xkind=f'grid{q}')
+        yield 'C13.anova_func.model', dict(d=d, n=n, m=q ** d, a=[-1. - k for k in range(d)], b=[0.5 + 2 * k for k in range(d)],
+                                           lamb=1e-7, seed=n + d, ykind=('first', 'even')[j % 2], xkind=f'grid{q}')
+        yield 'C13.anova_func.model', dict(d=d, n=n, m=q ** d, a=-1., b=1., lamb=1e-7, seed=n + d, ykind='even', xkind=f'grid{q}',
+                                           yscale=(1e-6, 1e6)[j % 2])
+    for d in (2, 3):
+        for n in (3, 5):
+            for yscale in (1e-15, 1e-16, 1e-17, 1e-20, 1e-30) + ((1e-14, 1e-18, 1e-60, 1e-100) if big else ()):
+                for yk in (('gauss', 'additive', 'smooth') if big else (('gauss', 'additive', 'smooth')[j % 3],)):
+                    j += 1
+                    yield 'C13.anova_func.model', dict(d=d, n=n, m=(6 + 2 * d) * n, a=-1., b=1., lamb=1e-7, seed=n + d, ykind=yk,
+                                                       yscale=yscale)
+    for shape, pos in (([3], [1]), ([2, 3], [1, 0]), ([3, 3, 3], [0, 2, 1]), ([2, 2, 2, 2], [1, 1, 0, 1]), ([4, 1, 2, 3, 2, 2], [3, 0, 0, 2, 1, 1])):
+        for mag in (0., 1e-300, 1e-100, 1e-30, 1e-18, 1e-17, 0.99e-16, 1e-16, 1.01e-16, 2e-16, 1e-15, 1e-8, 1., 42., 1e30, 1e300) + \
+                ((5e-324, 1e-200, 3e-17, 1.0000000000000002e-16, 1e-12, 1e100) if big else ()):
+            for sg in (1., -1.):
+                yield 'C13.delta.value', dict(shape=shape, pos=pos, v=sg * mag)
+    # ---- gap closure: number of pair terms at / above the intermediate-truncation period 15 of add_many (d >= 6), with rank
+    # caps below and at the natural rank of the model
+    j = 0
+    for shape in ([2] * 6, [3, 2, 3, 2, 3, 2], [2] * 7) + (([2] * 10, [2, 3, 2, 2, 3, 2, 2], [3, 3, 2, 2, 2, 2], [2] * 11) if big else ()):
+        d = len(shape)
+        need = 2 + sum(min(shape[i], shape[k]) for i in range(d - 1) for k in range(i + 1, d))
+        for how in (hows if big else ('full', 'sparse')):
+            for yk in (ykinds if big else (ykinds[j % 3],)):
+                j += 1
+                base = dict(shape=shape, how=how, ykind=yk, seed=j)
+                for r in (need, 2, 3, 4) + ((5, 8, need + 3) if big else ()):
+                    yield 'C13.anova.order2', dict(base, r=r, aseed=j % 3)
+                for (r, noise) in ((2, 1e-10), (3, 1e-3), (4, 1e-10), (6, 0.5)) + (((2, 0.), (5, 1e-10), (need, 1e-3)) if big else ()):
+                    yield 'C13.anova.order2_rank_cap', dict(base, r=r, noise=noise, aseed=j)
+                if how != 'sparse':
+                    yield 'C13.anova.additive', dict(shape=shape, how=how, seed=j, r=need, order=2, aseed=j)
+                    yield 'C13.anova.additive', dict(shape=shape, how=how, seed=j, r=3, order=2, aseed=j)
+    for shape in ([2] * 10,) if not big else ():
+        yield 'C13.anova.order2', dict(shape=shape, how='sparse', ykind='gauss', seed=2, r=92, aseed=1)
+        yield 'C13.anova.order2_rank_cap', dict(shape=shape, how='sparse', ykind='gauss', seed=2, r=3, noise=1e-10, aseed=1)
+    for shape in ([2, 3, 2], [2, 2, 2, 2]) + (([3, 4], [2] * 6, [4, 4, 3]) if big else ()):
+        d = len(shape)
+        full = max(min(int(np.prod(shape[:k])), int(np.prod(shape[k:]))) for k in range(1, d))
+        for tf in (None, 1, 2) + ((3, 4, 15, 16) if big else ()):
+            t = 15 if tf is None else tf
+            for count in sorted({1, 2, t, t + 1, t + 2, 2 * t, 2 * t + 1, 2 * t + 2, 3 * t + 1}):
+                for r in ((1, 2, full, full + 2) if big else (1 + j % 2, full)):
+                    j += 1
+                    yield 'C13.add_many.rank_cap', dict(shape=shape, count=count, trunc_freq=tf, r=r, seed=j,
+                                                        scalars=(j % 5 == 0))
     # ---- parameter-coverage additions -----------------------------------------------------------------------
     # larger d / mode sizes (order 2 with d = 5, a mode of size 12), reduced combination list
     j = 0
